@@ -287,7 +287,7 @@ def main(tier, replay=None):
                             grid += 1
     rep.extra["exhaustive_grid_parameter_sets"] = grid
     nshards = 16 if tier == "thorough" else 8
-    total = 16 * 5000 if tier == "thorough" else 400
+    total = 16 * 5000 if tier == "thorough" else 4000
     for part in engine.run_shards(_shard, nshards, common.verif_seed(), tier=tier, n_cases=total // nshards):
         rep.merge(part)
     return rep.finish()
